@@ -462,6 +462,8 @@ func (g *gen) families18() {
 	g.overflowFamily()
 	// inputs that are (or pretend to be) other container and serialisation formats
 	g.foreignFormatFamily(small)
+	// messages nested far beyond any sane depth (protobuf decoders recurse)
+	g.deepNestingFamily()
 	// parts of the ONNX schema the pinned tree ignores (sparse initializers, functions, training info, graph
 	// attributes ...): a tree that starts reading them must not start panicking on them
 	g.sparseFamily()
@@ -599,6 +601,22 @@ func (g *gen) opnameFamily() {
 		m2 := ChainModel()
 		m2.Nodes = append(m2.Nodes, mb.Node{Op: nm, In: []string{"y"}, Out: []string{"unused"}})
 		g.rawCase("opname", fmt.Sprintf("extra-last=%q", nm), m2.Bytes(), "bytes", true, "")
+	}
+	// unknown operators under every node domain an exporter might write (the pinned tree ignores the field)
+	for _, dom := range []string{"ai.onnx", "ai.onnx.ml", "ai.onnx.training", "ai.onnx.preview.training", "com.microsoft", "com.microsoft.experimental", "org.pytorch.aten", "org.pytorch._caffe2", "com.example", "custom", "ai.onnx.preview", "pkg.onnxscript.torch_lib"} {
+		for _, nm := range []string{"Erf", "Adam", "Gradient", "NotAnOperator", "relu"} {
+			for pos := 0; pos < 3; pos += 2 {
+				m := ChainModel()
+				nodes := append([]mb.Node{}, m.Nodes...)
+				nodes[pos].Op, nodes[pos].Domain = nm, dom
+				m.Nodes = nodes
+				m.Opsets = []int64{1}
+				g.rawCase("opname", fmt.Sprintf("op[%d]=%q domain=%q", pos, nm, dom), m.Bytes(), "bytes", true, "")
+			}
+			m := ChainModel()
+			m.Nodes = append(m.Nodes, mb.Node{Op: nm, Domain: dom, In: []string{"y"}, Out: []string{"unused"}})
+			g.rawCase("opname", fmt.Sprintf("extra-last=%q domain=%q", nm, dom), m.Bytes(), "bytes", true, "")
+		}
 	}
 	// unknown operators in other graph contexts: output names that collide with a Constant's, an initializer's, a
 	// graph input's or another node's output; no outputs; several outputs; after a Constant; no inputs
@@ -1065,5 +1083,57 @@ func (g *gen) foreignFormatFamily(bases []base) {
 	for _, lit := range []string{"\x1f\x8b", "\x1f\x8b\x08", "\x1f\x8b\x08\x00\x00\x00\x00\x00\x00\xff", "PK\x03\x04", "PK\x05\x06" + strings.Repeat("\x00", 18), "BZh91AY&SY", "\xfd7zXZ\x00", "\x28\xb5\x2f\xfd", "\x89HDF\r\n\x1a\n",
 		"\x93NUMPY\x01\x00", "\x80\x04\x95", "{\"graph\": {}}", "ir_version: 7\ngraph { }", "<?xml version=\"1.0\"?>", "ustar\x0000", strings.Repeat("\x00", 512), strings.Repeat("\x00", 1024), "\xef\xbb\xbf", "ONNX", "\x08\x07\x12"} {
 		g.rawCase("foreign-format", fmt.Sprintf("magic %q", lit), []byte(lit), "bytes", true, "")
+	}
+}
+
+// nested builds `depth` levels of length-delimited field `field` around `core`, outermost first.
+func nested(fields []int, depth int, core []byte) []byte {
+	// sizes from the inside out
+	sizes := make([]int, depth+1)
+	sizes[depth] = len(core)
+	vlen := func(n int) int {
+		l := 1
+		for n >= 0x80 {
+			n >>= 7
+			l++
+		}
+		return l
+	}
+	for d := depth - 1; d >= 0; d-- {
+		sizes[d] = 1 + vlen(sizes[d+1]) + sizes[d+1]
+	}
+	out := make([]byte, 0, sizes[0])
+	for d := 0; d < depth; d++ {
+		f := fields[d%len(fields)]
+		out = append(out, byte(f<<3|2))
+		n := sizes[d+1]
+		for n >= 0x80 {
+			out = append(out, byte(n)|0x80)
+			n >>= 7
+		}
+		out = append(out, byte(n))
+	}
+	return append(out, core...)
+}
+
+func (g *gen) deepNestingFamily() {
+	// graph(7).input(11).type(2).sequence_type(4).elem_type(1).sequence_type(4).elem_type(1)... and
+	// graph(7).node(1).attribute(5).g(6).node(1).attribute(5).g(6)... (subgraphs)
+	chains := map[string][]int{"sequence-types": {4, 1}, "subgraphs": {1, 5, 6}}
+	for _, name := range []string{"sequence-types", "subgraphs"} {
+		for _, depth := range []int{64, 1000, 9990, 10010, 100000, 1200000, 4000000} {
+			if !g.mine() || g.stop {
+				continue
+			}
+			var data []byte
+			if name == "sequence-types" {
+				data = nested([]int{7, 11, 2}, 3, nested(chains[name], depth, nil))
+			} else {
+				data = nested([]int{7}, 1, nested(chains[name], depth, nil))
+			}
+			// a valid opset import after the nested part, so that only the nesting stands between the file and a Model
+			data = append(data, 0x42, 0x02, 0x10, 0x0d)
+			g.run(&Case{Family: "deep-nesting", Base: fmt.Sprintf("%s nested %d deep (%d bytes)", name, depth, len(data)), Reader: "bytes", ZipFail: -1, Data: data}, true)
+		}
 	}
 }
